@@ -183,5 +183,7 @@ static void run_tables(Result &R, const Args &A) {
   }
   R.evaluations += ev;
   R.nontrivial += ev;
+  R.sample("{\"part\": \"tables\", \"elements\": 27, \"direction_vectors\": 216, \"masks\": 66, \"blocks\": \"(1..3)^3 x 3 geometries\"}");
+  R.set("table_entries_checked", (double)ev);
 }
 #endif
